@@ -9,13 +9,30 @@
       * C01_history_independence_partial: two histories ending with the same active chain - the same payloads on
         root..tip - end with the same reference count for every SP block and the same endorsement multiset. The fresh
         instance that is only shown the final chain is one such history.
-    GAP (why _partial; full statement of the property): additionally the same POP payouts and the same comparePopScore
-      verdict against any candidate. Payouts and the score comparison are functions of (P, active chain) outside this
-      model (properties C14 / C03); their equality is checked on the implementation by the twin oracle (instance with a
-      history vs fresh instance shown only the active chain: POP projection of the ALT/VBK/BTC views, getPopPayout,
-      comparePopScore against several shown candidates and the state after it). *)
+    BY COMPOSITION with the payout calculator model (Rewards/, C14) and the scoring model (Score/, C03), over explicit
+    adapters for what the POP model does not contain (payout info of an endorsement, SP best chain as a function of the
+    reference counts = the carve-out of the property text, keystone interval, timestamps; all universally quantified):
+      * C01_payouts_history_independent: the calculator's input (per block of the active chain: height and endorsement
+        multiset) and getPopPayout for every block of the active chain coincide in two reachable states with the same
+        active chain (ids, heights, payloads of root..tip); C01_payouts_fresh_instance: in particular for the fresh
+        instance (connects + one setState);
+      * C01_candidate_validation_history_independent / C01_score_input_history_independent: for a candidate whose chain
+        (ids, heights, payloads) is the same in both states and carries NO CACHED FAILED MARK, applying its branch next
+        to the active chain succeeds or fails alike, leaves the same protecting multiset, and the publication views /
+        comparePopScoreImpl result / the machine's score are equal;
+      * C01_verdict_history_independent_partial: the verdict of the general fork case of comparePopScore (machine run
+        with the Score model's scorer) is equal, except possibly when the candidate outscores the active chain and the
+        stand-alone re-validation of its never-validated part differs (not related here: needs C20 truthfulness across
+        the two states).  Also not covered: the structural short-cuts of the outer comparePopScore before the fork
+        case (candidate is the tip / on the active chain / a successor of the tip), which read only ids and heights.
+      * C01_verdict_without_clean_premise_refuted: without the premise the verdict statement is false on the model
+        (cached BLOCK_FAILED_POP: 1 vs 0 when no keystone boundary is crossed) = finding C01:verdict-0-vs-1-cached-invalid.
+    The twin oracle on the implementation (history vs fresh instance: POP projection, getPopPayout, comparePopScore
+    against shown candidates) still checks payouts and verdicts end to end. *)
 From Coq Require Import List ZArith NArith Bool Permutation.
-From VB Require Import Pop.SmDefs Pop.SmProofs Pop.SmWf Pop.SmCmp.
+From VB Require Import Pop.SmDefs Pop.SmProofs Pop.SmWf Pop.SmCmp Pop.C01Compose Pop.C01Verdict Pop.C01Fork Pop.C01Examples.
+From VB Require Rewards.CalcDefs Rewards.BoundsDefs Score.CInt Score.CmpDefs.
+Import ListNotations.
 
 Theorem C01_cmd_unexec_exec :
   forall c p p', cexec c p = Some p' -> cunexec c p' = p.
@@ -56,3 +73,132 @@ Print Assumptions C01_history_independence_partial.
 Theorem C01_nonvacuous : exists s, reachable ex_base s /\ tip _ _ s = 6%N.
 Proof. exact ex_reachable. Qed.
 Print Assumptions C01_nonvacuous.
+
+(** *** payouts and verdicts, by composition with the reward (C14) and score (C03) models *)
+
+Theorem C01_payout_input_history_independent :
+  forall (pinfo : N -> N -> N -> Z) (spv : (N -> nat) -> N -> option Z) base s1 s2,
+    sp_determined spv ->
+    reachable base s1 -> reachable base s2 -> active_chain s1 = active_chain s2 ->
+    Forall2 block_equiv (payout_input pinfo spv s1) (payout_input pinfo spv s2).
+Proof. exact payout_input_history_independent. Qed.
+Print Assumptions C01_payout_input_history_independent.
+
+Theorem C01_get_pop_payout_equiv :
+  forall p c c',
+    VB.Rewards.BoundsDefs.params_okb p = true -> VB.Rewards.BoundsDefs.chain_okb c = true -> Forall2 block_equiv c c' ->
+    VB.Rewards.CalcDefs.get_pop_payout VB.Rewards.BigDecDefs.wrap256 p c =
+    VB.Rewards.CalcDefs.get_pop_payout VB.Rewards.BigDecDefs.wrap256 p c'.
+Proof. exact get_pop_payout_equiv. Qed.
+Print Assumptions C01_get_pop_payout_equiv.
+
+Theorem C01_payouts_history_independent :
+  forall (pinfo : N -> N -> N -> Z) (spv : (N -> nat) -> N -> option Z) params base s1 s2,
+    sp_determined spv ->
+    reachable base s1 -> reachable base s2 -> active_chain s1 = active_chain s2 ->
+    VB.Rewards.BoundsDefs.params_okb params = true ->
+    VB.Rewards.BoundsDefs.chain_okb (payout_input pinfo spv s1) = true ->
+    Forall2 block_equiv (payout_input pinfo spv s1) (payout_input pinfo spv s2) /\
+    forall k, payouts pinfo spv params s1 k = payouts pinfo spv params s2 k.
+Proof. exact payouts_history_independent. Qed.
+Print Assumptions C01_payouts_history_independent.
+
+Theorem C01_payouts_fresh_instance :
+  forall (pinfo : N -> N -> N -> Z) (spv : (N -> nat) -> N -> option Z) params base s1 r h ops s2,
+    sp_determined spv ->
+    reachable base s1 ->
+    fresh_history ops -> run (c_init r h base) ops = Ok s2 ->
+    active_chain s1 = active_chain s2 ->
+    VB.Rewards.BoundsDefs.params_okb params = true ->
+    VB.Rewards.BoundsDefs.chain_okb (payout_input pinfo spv s1) = true ->
+    forall k, payouts pinfo spv params s1 k = payouts pinfo spv params s2 k.
+Proof. exact payouts_fresh_instance. Qed.
+Print Assumptions C01_payouts_fresh_instance.
+
+Theorem C01_candidate_validation_history_independent :
+  forall base s1 s2 c fork t1 ok1 t2 ok2,
+    reachable base s1 -> reachable base s2 -> active_chain s1 = active_chain s2 ->
+    (exists b, find ccmd (blocks _ _ s1) c = Some b) -> (exists b, find ccmd (blocks _ _ s2) c = Some b) ->
+    chain_of s1 c = chain_of s2 c ->
+    In fork (map (fun t => fst (fst t)) (chain_of s1 c)) ->
+    clean s1 c (Z.to_nat (hgt (cores s1) c - hgt (cores s1) fork)) ->
+    clean s2 c (Z.to_nat (hgt (cores s1) c - hgt (cores s1) fork)) ->
+    apply pstate ccmd cexec cunexec s1 fork c = Ok (t1, ok1) ->
+    apply pstate ccmd cexec cunexec s2 fork c = Ok (t2, ok2) ->
+    ok1 = ok2 /\ (ok1 = true -> Permutation (pst _ _ t1) (pst _ _ t2)) /\ frame s1 t1 /\ frame s2 t2.
+Proof. exact candidate_validation_history_independent. Qed.
+Print Assumptions C01_candidate_validation_history_independent.
+
+Theorem C01_score_input_history_independent :
+  forall cfg ki ta alt_time spv sp_times,
+    sp_determined spv -> sp_times_determined sp_times ->
+  forall base s1 s2 c fork t1 t2,
+    reachable base s1 -> reachable base s2 -> active_chain s1 = active_chain s2 ->
+    (exists b, find ccmd (blocks _ _ s1) c = Some b) -> (exists b, find ccmd (blocks _ _ s2) c = Some b) ->
+    chain_of s1 c = chain_of s2 c ->
+    In fork (map (fun t => fst (fst t)) (chain_of s1 c)) ->
+    clean s1 c (Z.to_nat (hgt (cores s1) c - hgt (cores s1) fork)) ->
+    clean s2 c (Z.to_nat (hgt (cores s1) c - hgt (cores s1) fork)) ->
+    apply pstate ccmd cexec cunexec s1 fork c = Ok (t1, true) ->
+    apply pstate ccmd cexec cunexec s2 fork c = Ok (t2, true) ->
+    (forall S, pub_view ki ta alt_time spv sp_times (pst _ _ t1) S = pub_view ki ta alt_time spv sp_times (pst _ _ t2) S) /\
+    core_score cfg ki ta alt_time spv sp_times (pst _ _ t1) (line t1 (tip _ _ t1)) (line t1 c) =
+    core_score cfg ki ta alt_time spv sp_times (pst _ _ t2) (line t2 (tip _ _ t2)) (line t2 c) /\
+    score_of cfg ki ta alt_time spv sp_times t1 c = score_of cfg ki ta alt_time spv sp_times t2 c.
+Proof. exact candidate_score_history_independent. Qed.
+Print Assumptions C01_score_input_history_independent.
+
+(** full statement (not proved): r1 = r2; see the header for the remaining case *)
+Theorem C01_verdict_history_independent_partial :
+  forall cfg ki ta alt_time spv sp_times,
+    sp_determined spv -> sp_times_determined sp_times ->
+  forall base s1 s2 c bc1 bt1 bc2 bt2 s1' r1 s2' r2,
+    reachable base s1 -> reachable base s2 -> active_chain s1 = active_chain s2 ->
+    find ccmd (blocks _ _ s1) c = Some bc1 -> find ccmd (blocks _ _ s2) c = Some bc2 ->
+    find ccmd (blocks _ _ s1) (tip _ _ s1) = Some bt1 -> find ccmd (blocks _ _ s2) (tip _ _ s2) = Some bt2 ->
+    chain_of s1 c = chain_of s2 c ->
+    clean_all s1 c -> clean_all s2 c ->
+    compare_fork pstate ccmd cexec cunexec (score_of cfg ki ta alt_time spv sp_times) (crossed_of ki) s1 c bc1 bt1 = Ok (s1', r1) ->
+    compare_fork pstate ccmd cexec cunexec (score_of cfg ki ta alt_time spv sp_times) (crossed_of ki) s2 c bc2 bt2 = Ok (s2', r2) ->
+    (r1 = r2 \/ (r1 < 0 /\ r2 = 1) \/ (r1 = 1 /\ r2 < 0))%Z.
+Proof. exact fork_verdict_history_independent_partial. Qed.
+Print Assumptions C01_verdict_history_independent_partial.
+
+Theorem C01_compose_premises_satisfiable :
+  ex_ops <> fresh_ops /\
+  reachable ex_base ex_s1 /\ reachable ex_base ex_s2 /\ fresh_history fresh_ops /\
+  active_chain ex_s1 = active_chain ex_s2 /\
+  map (fun t => fst (fst t)) (active_chain ex_s1) = [6; 3; 0]%N /\
+  ends_of (pst _ _ ex_s1) 3 = [(3, 3, 7)]%N /\
+  sp_determined ex_spv /\
+  VB.Rewards.BoundsDefs.params_okb VB.Rewards.BoundsDefs.default_params = true /\
+  VB.Rewards.BoundsDefs.chain_okb (payout_input ex_pinfo ex_spv ex_s1) = true /\
+  map (fun b => length (VB.Rewards.CalcDefs.b_ends b)) (payout_input ex_pinfo ex_spv ex_s1) = [0; 1; 0]%nat.
+Proof. exact compose_premises_satisfiable. Qed.
+Print Assumptions C01_compose_premises_satisfiable.
+
+Theorem C01_verdict_premises_satisfiable :
+  (chain_of ex_s1 15 = chain_of ex_s2 15 /\
+   (exists b, find ccmd (blocks _ _ ex_s1) 15 = Some b) /\ (exists b, find ccmd (blocks _ _ ex_s2) 15 = Some b) /\
+   In 3%N (map (fun t => fst (fst t)) (chain_of ex_s1 15)) /\
+   clean ex_s1 15 (Z.to_nat (hgt (cores ex_s1) 15 - hgt (cores ex_s1) 3)) /\
+   clean ex_s2 15 (Z.to_nat (hgt (cores ex_s1) 15 - hgt (cores ex_s1) 3)) /\
+   (exists t1, apply pstate ccmd cexec cunexec ex_s1 3 15 = Ok (t1, true)) /\
+   (exists t2, apply pstate ccmd cexec cunexec ex_s2 3 15 = Ok (t2, true))) /\
+  clean_all ex_s1 15 /\ clean_all ex_s2 15.
+Proof. exact (conj verdict_premises_satisfiable verdict_clean_all_satisfiable). Qed.
+Print Assumptions C01_verdict_premises_satisfiable.
+
+Theorem C01_verdict_without_clean_premise_refuted :
+  reachable ex_base (st_of rf_ops1) /\ reachable ex_base (st_of rf_ops2) /\
+  active_chain (st_of rf_ops1) = active_chain (st_of rf_ops2) /\
+  chain_of (st_of rf_ops1) 12 = chain_of (st_of rf_ops2) 12 /\
+  (exists b, find ccmd (blocks _ _ (st_of rf_ops1)) 12 = Some b /\ b_fp _ b = true) /\
+  (exists b, find ccmd (blocks _ _ (st_of rf_ops2)) 12 = Some b /\ is_failed _ b = false) /\
+  ~ clean (st_of rf_ops1) 12 1 /\
+  match c_compare rf_sc rf_cr (st_of rf_ops1) (Some 12%N), c_compare rf_sc rf_cr (st_of rf_ops2) (Some 12%N) with
+  | Ok (_, r1), Ok (_, r2) => r1 = 1%Z /\ r2 = 0%Z
+  | _, _ => False
+  end.
+Proof. exact verdict_without_clean_premise_refuted. Qed.
+Print Assumptions C01_verdict_without_clean_premise_refuted.
